@@ -7,14 +7,18 @@ Trace == ndJsonDeserialize("certcomp_trace.ndjson")
 VARIABLES l, cur, rej
 Init == l = 1 /\ cur = [sc |-> -1] /\ rej = {}
 Range(s) == {s[i] : i \in DOMAIN s}
-Adv(s) == s.alg \in Range(s.advertised)
+\* advertised on the wire: listed in the extension, and the extension not removed from the hello before it was sent
+Adv(s) == s.alg \in Range(s.advertised) /\ ~s.drop_ext
 Valid(s) == s.corrupt \notin {"truncate", "flip"} /\ s.alg \in {1, 2, 3}
 SameLen(s) == s.decl_delta = 0 /\ ~s.decl_huge
 Same(s) == s.corrupt # "other"
 \* "trailing": a complete valid stream followed by foreign bytes - the property does not say whether the message counts as a
 \* valid encoding, so both accepting the certificate and aborting are allowed for that handshake (what must not happen is that
 \* it influences another handshake: the sequential pass judges every following handshake by its own scenario)
-Allowed(s) == IF s.corrupt = "trailing" /\ Adv(s) THEN {"accept", "abort", "bad_certificate"}
+\* no compress_certificate extension on the wire at all: a CompressedCertificate is then simply an unexpected message
+\* (RFC 8879 section 4), any abort is right; accepting it is not
+Allowed(s) == IF s.drop_ext THEN {"abort", "bad_certificate"}
+              ELSE IF s.corrupt = "trailing" /\ Adv(s) THEN {"accept", "abort", "bad_certificate"}
               ELSE IF ~Adv(s) THEN {"bad_certificate"}
               ELSE IF Valid(s) /\ ~SameLen(s) THEN {"bad_certificate"}
               ELSE IF ~Valid(s) \/ ~Same(s) THEN {"abort", "bad_certificate"}
